@@ -29,6 +29,9 @@ class DumbSpiDev:  # the class name must end in "SpiDev" for rf24.py to pick SPI
         self.rx = []  # payloads to hand out through R_RX_PAYLOAD
         self.no_cs = True
         self.tx_addr_log = []  # TX_ADDR at the moment of each W_TX_PAYLOAD
+        self.fail_index = None  # ordinal of the W_TX_PAYLOAD whose every attempt fails
+        self.pending = None  # payload left in the TX FIFO by a failed transmission
+        self.attempts = 0
 
     def open(self, bus, dev):
         pass
@@ -51,12 +54,16 @@ class DumbSpiDev:  # the class name must end in "SpiDev" for rf24.py to pick SPI
             if cmd == 7:
                 reg = [st]
             if cmd == 0x17:
-                reg = [(0x10 if not self.tx else 0) | (0x01 if not self.rx else 0)]
+                reg = [(0x10 if self.pending is None else 0) | (0x01 if not self.rx else 0)]
             return [st] + (list(reg) + [0] * n)[:n]
         if cmd < 0x40:  # W_REGISTER
             r = cmd & 0x1F
             if r == 7:
                 self.regs[7][0] &= ~(out[1] & 0x70)
+                if out[1] & 0x10 and self.pending is not None:
+                    # MAX_RT cleared with a payload still in the TX FIFO: the radio retransmits it
+                    self.attempts += 1
+                    self.regs[7][0] |= 0x10  # ... and (this payload being doomed) fails again
             elif r in self.regs:
                 old = self.regs[r]
                 new = out[1:]
@@ -70,9 +77,15 @@ class DumbSpiDev:  # the class name must end in "SpiDev" for rf24.py to pick SPI
         if cmd in (0xA0, 0xB0):
             self.tx.append(bytes(out[1:]))
             self.tx_addr_log.append(bytes(self.regs[0x10]))
-            self.regs[7][0] |= 0x20  # pretend it was sent and acknowledged at once
+            self.attempts += 1
+            if self.fail_index is not None and len(self.tx) - 1 == self.fail_index:
+                self.pending = bytes(out[1:])
+                self.regs[7][0] |= 0x10  # MAX_RT: never acknowledged
+            else:
+                self.regs[7][0] |= 0x20  # pretend it was sent and acknowledged at once
             return [st] + [0] * n
         if cmd == 0xE1:
+            self.pending = None
             return [st]
         if cmd == 0xE2:
             self.rx.clear()
